@@ -138,6 +138,17 @@ def oracle(chk, model, r, files, opts, what):
         if problems:
             fails += 1
             chk.oracle_failure(None, "%s: assembly succeeded but %s" % (what, "; ".join(problems[:3])), dict(replay, problems=problems[:8]))
+    # segments.<name>.start / .end are the final ranges
+    symv = {p_: v_ for p_, t_, v_ in r["symbols"]}
+    stale_seg = []
+    for name, start, end, data in impl_segments(r):
+        for suffix, want in (("start", start), ("end", end)):
+            got = symv.get("segments.%s.%s" % (name, suffix))
+            if got is not None and got != want:
+                stale_seg.append("segments.%s.%s = %s but the segment's final range is $%04X..$%04X" % (name, suffix, got, start, end))
+    if stale_seg:
+        fails += 1
+        chk.oracle_failure(None, "%s: assembly succeeded but %s" % (what, "; ".join(stale_seg[:3])), replay)
     # VICE symbols list exactly the labels with the final values
     labels = sorted("al C:%X .%s" % (v, p) for p, t, v in r["symbols"] if t == "label" and isinstance(v, int) and v >= 0)
     vice = sorted(l for l in r.get("vice", "").splitlines() if l.strip())
@@ -205,7 +216,7 @@ def run(chk):
     probe = Proc([common.build_probe("harness_c02", "c02probe")])
     model = Proc([common.build_model("asm")])
     thorough = chk.tier == "thorough"
-    n = 2500 if thorough else 450
+    n = 3000 if thorough else 1000
     dist = {"programs": 0, "ok": 0, "failed": 0, "model_aborted": {}, "passes": {}, "kinds": {}, "segments": {}, "zp_sized_symbol_operands": 0,
             "abs_sized_symbol_operands": 0, "programs_with_both_sizes": 0, "outside_guard_var_or_import": 0, "statements": 0,
             "max_nesting": 0}
@@ -230,6 +241,14 @@ def run(chk):
             if expect.get("data") is not None and got != expect["data"]:
                 chk.oracle_failure(None, "%s: regression witness assembles to %s, the fixed point is %s (%s)" % (name, got, expect["data"], expect.get("why", "")),
                                    {"files": files, "opts": opts})
+        # (c) every label of the final table was written by the last pass (pass stamps: from the model, which agrees with the
+        #     implementation on this program's symbols)
+        if m.get("status") == "done" and sym_key(r["symbols"]) == sym_key(m["symbols"]):
+            stale = [p_ for p_, t_ in m.get("stale", []) if t_ == "label"]
+            if stale:
+                dist["stale_labels"] = dist.get("stale_labels", 0) + 1
+                chk.oracle_failure("Known_stale_symbol_survives", "%s: assembly succeeded but the symbol table (and the VICE file) keeps label(s) %s that the last "
+                                   "pass never defined: their values come from an earlier pass" % (name, stale[:4]), {"files": files, "opts": opts})
         p = r.get("passes", 0)
         dist["passes"][str(p)] = dist["passes"].get(str(p), 0) + 1
         nseg = len(r["segments"])
